@@ -116,6 +116,16 @@ CLAIMED['C07'] = ('RangeLaw, Units, Trace_C07',
     'Sampling (400 draws quick, 20000 thorough), not exhaustive.',
     'DESIGN.md 3.2, 4 C07')
 
+CLAIMED['C19'] = ('HistBins, Gen_C19',
+    'TLA+ edge grid as exact fractions of the span in the scale coordinate + argument broadcasting table; TLC checks '
+    'increasing/covering/centred theorems; every scenario executed through FCSData.hist_bins on raw, RFI and MEF-like samples',
+    'Exhaustive over the enumerated call shapes (channel forms, nbins default/explicit/lists, scale linear/log/logicle/'
+    'lists/unknown, logicle overrides) on three sample states: count, finiteness, monotonicity, coverage, exact grid '
+    '(linear directly, log via log10, logicle via the library display transform built per channel), centring for the '
+    'default bin count, multi-channel = per-channel (bitwise), unknown scale refused, sample range unchanged.',
+    'Trusted: TLC, value parser; the logicle display transform itself (C18, not claimed); coordinate tolerance 1e-11 of the span.',
+    'DESIGN.md 3.3, 4 C19')
+
 NOT_APPLICABLE = {
     'C09': 'continuum numerics only (L-BFGS-B recovery of real parameters, real-analytic identities of closures): no '
            'state, history or case analysis for a TLA+ specification to enumerate; discrete fragment (Fit refuses <3 '
